@@ -77,6 +77,10 @@ class Actor(object):
                     self.k.die(self.proc, code=0)
                 self.dead = True
                 return
+            except HarnessError:
+                raise
+            except Exception as e:
+                raise HarnessError('actor %s raised %r' % (self.name, e))
             exc = None
             value = None
             r = self._handle(req)
